@@ -51,6 +51,17 @@ def oracle(rec):
     if rec["meta"]["errors"]:
         return {"exception": rec["meta"]["errors"]}
     quant = {int(k): dict(v, id=int(k)) for k, v in rec["meta"]["quant"].items()}
+    # right after reset_bounds() a quantifier that was never asserted holds its world default for every group: the next
+    # upward call then aggregates the CURRENT instances onto that, not onto what an earlier run left behind
+    for k, line in enumerate(rec["lines"]):
+        if line.startswith("fresetb") and k + 1 < len(rec["lines"]) and rec["lines"][k + 1].startswith("ftab "):
+            tabs = fol.parse_tab(rec["impl"][k + 1])
+            for i, qi in quant.items():
+                w = (parse_q(qi["world"][0]), parse_q(qi["world"][1]))
+                for g, b in tabs.get(i, {}).items():
+                    if b != w:
+                        return {"problem": "after reset_bounds() a quantifier group still holds the bounds of the previous run", "quantifier": i,
+                                "group": g, "got": list(map(str, b)), "world_default": list(map(str, w))}
     prev = None
     for k, op, out, tabs in tabs_of(rec):
         if prev is not None and op.startswith("fup "):
@@ -100,6 +111,13 @@ def gen_growing_group(rng):
         if rng.random() < 0.7:
             ops += [("up", 2), ("up", 3)]
     ops += [("up", 2), ("up", 3), ("up", 3)]
+    if rng.random() < 0.6:
+        # a second run on REVISED data: reset_bounds(), some instances re-asserted more loosely, upward again -- every group
+        # must hold the aggregate of its CURRENT instances
+        ops.append(("resetb",))
+        for x, y in arrivals[: rng.randint(1, 3)]:
+            ops.append(("fact", 0, [x, y], ZERO, ONE) if rng.random() < 0.5 else ("fact", 0, [x, y], *val()))
+        ops += [("up", 2), ("up", 3)]
     return {"kb": {"preds": preds, "nodes": [body, qn], "roots": [3]}, "facts": facts + first, "ops": ops, "n_consts": nc}
 
 
